@@ -12,10 +12,10 @@ pub fn spec() -> PropSpec {
     PropSpec {
         id: "C06",
         level: "exploration",
-        rule: "decode_mutation / decode_mutations: all word strings of length <= 4 (thorough 6) over {MIN,-1,0,1,2,3,5,MAX}; Predicate::decode, asm::from_bytes, BytecodeMapped::try_from: all byte strings of length <= 2 over all 256 values, all strings of <= 3 (thorough 4) symbols over {opcode bytes, 0x00, 0x0F, 0xFF}, structure-aware predicate blobs (num_nodes and num_edges in {0,1,2,1000,1001,65535}, every truncation point up to 80 bytes and at every field boundary); Predicate::node_edges on every C01 encoding x node index {0..n+1, usize::MAX}; predicate::check / check_contract on size-limit shapes; every C01 graph encoding (cyclic, dangling, malformed included) through check_set, the two-pass entry point and both run modes; data-output leaves whose memory is each enumerated word string; pre/post reads with counts {0,1,2,10241,2^31,MAX} with the contract present/absent in the post state. Oracle: returns Ok or a typed Err — no panic (catch_unwind), no abort and no run-away (worker processes under an 8 GiB address-space limit and a 30 s per-case horizon; a dead worker's write-ahead case is re-run alone twice and reported when it dies both times). Both arithmetic profiles. non-trivial = the decoder/check returned Ok; distinct by input",
+        rule: "decode_mutation / decode_mutations: all word strings of length <= 4 (thorough 6) over {MIN,-1,0,1,2,3,5,MAX}; Predicate::decode, asm::from_bytes, BytecodeMapped::try_from: all byte strings of length <= 2 over all 256 values, all strings of <= 3 (thorough 4) symbols over {opcode bytes, 0x00, 0x0F, 0xFF}, structure-aware predicate blobs (num_nodes and num_edges in {0,1,2,1000,1001,65535}, every truncation point up to 80 bytes and at every field boundary); Predicate::node_edges on every C01 encoding x node index {0..n+1, usize::MAX}; predicate::check / check_contract on size-limit shapes; every C01 graph encoding (cyclic, dangling, malformed included) through check_set, the two-pass entry point and both run modes; node programs that are arbitrary byte strings (truncated Push at every cut, invalid opcodes) through the same entry points and the raw-byte effect scan; data-output leaves whose memory is each enumerated word string; pre/post reads with counts {0,1,2,10241,2^31,MAX} with the contract present/absent in the post state. Oracle: returns Ok or a typed Err — no panic (catch_unwind), no abort and no run-away (worker processes under an 8 GiB address-space limit and a 120 s per-case horizon; a dead worker's write-ahead case is re-run alone twice and reported when it dies both times). Both arithmetic profiles. non-trivial = the decoder/check returned Ok; distinct by input",
         assumptions: &[
             "a GetProgram/GetPredicate that lacks a requested address, and calling check_set_predicates on a set check_set rejects, are documented preconditions (not exercised)",
-            "'abort on allocation' is observed under an 8 GiB address-space limit; 'run-away' means no new case started for 30 s (quick) / 120 s (thorough)",
+            "'abort on allocation' is observed under an 8 GiB address-space limit; 'run-away' means no new case started for 120 s (quick) / 600 s (thorough)",
         ],
         run,
         replay,
@@ -59,6 +59,11 @@ fn bytes_case(bs: &[u8], rep: &mut Report) {
     let f = catch(|| essential_asm::from_bytes(bs.iter().copied()).collect::<Result<Vec<_>, _>>().is_ok());
     let m = catch(|| essential_vm::BytecodeMapped::try_from(bs).is_ok());
     let mo = catch(|| essential_vm::BytecodeMapped::try_from(bs.to_vec()).is_ok());
+    // the raw-byte effect scan runs over every submitted program before it is parsed
+    let sc = catch(|| essential_asm::effects::bytes_contains_any(bs, essential_asm::effects::Effects::all()));
+    if let Err((s, m)) = sc {
+        panic_violation("effects::bytes_contains_any", json!({"kind": "bytes", "bytes_hex": hex::encode(bs)}), s, m, rep);
+    }
     match p {
         Ok(x) => ok |= x.is_some(),
         Err((s, m)) => panic_violation("Predicate::decode", json!({"kind": "bytes", "bytes_hex": hex::encode(bs)}), s, m, rep),
@@ -287,6 +292,40 @@ fn run(cfg: &RunCfg, rep: &mut Report) {
                 }
             });
         }
+    }
+    // 3b. programs that are arbitrary byte strings (truncated Push, invalid opcodes, ...)
+    {
+        let mut progs: Vec<Vec<u8>> = vec![vec![], vec![0x01], vec![0xFF], vec![0x00]];
+        for a in [0x01u8, 0x02, 0x60, 0x82, 0x90, 0x91, 0xFF] {
+            for b in [0x01u8, 0x02, 0x82, 0x00] {
+                progs.push(vec![a, b]);
+                for cut in 0..=9usize {
+                    // a, then a Push whose immediate is cut after `cut` bytes, optionally preceded by b
+                    let mut p = vec![a, 0x01];
+                    p.extend(std::iter::repeat(b).take(cut.min(8)));
+                    progs.push(p.clone());
+                    p.insert(0, b);
+                    progs.push(p);
+                }
+            }
+        }
+        for (i, bytes) in progs.into_iter().enumerate() {
+            if !cfg.mine(i as u64) {
+                continue;
+            }
+            for leaf in [true, false] {
+                let l = u16::MAX;
+                let p = if leaf {
+                    PredCase { nodes: vec![(l, Role::RawBytes(bytes.clone()))], edges: vec![] }
+                } else {
+                    PredCase { nodes: vec![(0, Role::RawBytes(bytes.clone())), (l, Role::LeafDump)], edges: vec![1] }
+                };
+                for collect_all in [false, true] {
+                    checker_case(&CkCase { preds: vec![p.clone()], sols: vec![SolCase { pred: 0, contract: 0xC1, data: vec![], mutations: vec![] }], pre: vec![], strict: false, collect_all }, rep);
+                }
+            }
+        }
+        rep.sample(|| json!({"program_bytes_hex": "0101", "note": "Push cut after 1 immediate byte, as a node program"}));
     }
     // 4. arbitrary data outputs
     for_word_strings(wl.min(5), |i, ws| {
